@@ -66,8 +66,9 @@ CHECKS["C13"] = dict(
          "solution is a fixed point of every transient step and every transient step is non-expansive towards it (max "
          "norm).  The check compares the implementation's steady solve with that closed form in exact rationals for all "
          "17 well-posed pairings, and validates the distance to the logarithmic profile and long-time convergence numerically.",
-    note="partial: closeness of the discrete profile to the logarithmic one (second order inside, first-order dr/2r wall "
-         "factor) and strict long-time convergence are validated on the implementation, not proved.",
+    note="Closeness to the logarithmic profile is proved cell by cell over the reals (C13_cell_climb_second_order: the discrete "
+         "climb G/r_mid and the exact (G/dr) ln(r_out/r_in) differ by a relative x^2/3 .. x^2/(3(1-x^2)), x = dr/(2 r_mid)).  partial: "
+         "the first-order dr/2r factor of the wall rows and strict long-time convergence are validated on the implementation, not proved.",
     technique="Coq proof (induction along the radius, linearity + maximum principle) + certificate + exact closed-form oracle",
     design="4/C13")
 
